@@ -92,9 +92,22 @@ class SeqGenerator(numpy.random.Generator):
         return self._pos
 
     def _forbidden(self, *a, **k):
+        # a library that draws through another distribution method (e.g. exponential modulus and uniform phase
+        # instead of two normals - the same ensemble) is outside the reach of the scripted draws: the instrument
+        # does not apply, which is said (SEAM_BYPASSED: the runner does not claim this case's failures) and is
+        # no verdict on the library
+        SEAM_BYPASSED[0] += 1
         raise RuntimeError("unexpected random source used on a SeqGenerator")
 
-    random = uniform = integers = choice = permutation = shuffle = _forbidden
+
+# every public drawing method of numpy's Generator that is not scripted above is refused in the same way (methods
+# that were left to the real PCG64(0) underneath would silently mix real draws into a scripted run)
+for _name in dir(numpy.random.Generator):
+    if _name.startswith("_") or _name in ("normal", "standard_normal", "spawn", "bit_generator"):
+        continue
+    if callable(getattr(numpy.random.Generator, _name, None)):
+        setattr(SeqGenerator, _name, SeqGenerator._forbidden)
+del _name
 
 
 def unit_draws(n, k, value=1.0):
